@@ -28,6 +28,9 @@ ASSUMPTIONS = [
     'text form: an event ramp is written only when it has samples (as Valve\'s writer does), so active ramp edges are '
     'generated on events only together with >= 1 sample; default_curve_type is only stored in the flexanimations header, '
     'so it is non-default only on events that have flex tracks',
+    'an event\'s relative tag is the pair (tag_name, tag_wav_name): both set or both None (both forms store the pair as one unit); '
+    'scalesettings keys are distinct (a dict); strings may contain quotes, backslashes, braces, newlines and tabs - the '
+    'writer escapes them with escape_text() and the reader un-escapes',
     'SpeakEvent.use_combined_file is only stored when caption_type is not Disabled (both writers mask it); the '
     'expected value is masked the same way',
     'binary form: times, distancetotarget, flex min/max, sequenceduration are float32; ramp/flex sample values and tag '
@@ -39,7 +42,8 @@ ASSUMPTIONS = [
     'scenes.image: file names are ASCII and distinct after normalisation (lower case, "\\\\" separators, "scenes\\\\" '
     'prefix) since the CRC of that name is the key; strings are latin-1 without NUL (the pool is NUL-terminated '
     'latin-1); event times are >= 0 (duration is stored as an unsigned millisecond count); entries are built with '
-    'Entry.from_scene; a version 2 file has no last_speak field, the reader reports duration for it',
+    'Entry.from_scene; a version 2 file has no last_speak field, the reader reports duration for it; merging is exercised with unparsed '
+    'entries of one image plus new scenes, and with unparsed entries of two images (two pools)',
     'Tokenizer with its default options (as srctools.scripts.build_scenes_image constructs it)',
 ]
 
